@@ -644,7 +644,7 @@ def run():
         chk.cov["exhaustive"] = thorough
         chk.cov["programs"] = len(cases)
         # 2. negative control
-        if not (dev and os.environ.get("C05_DEV_EGO")):
+        if not (dev and (os.environ.get("C05_DEV_EGO") or os.environ.get("C05_DEV_SKIP"))):
             rn = vf.tlc("EgoFmt", "EgoFmt_Gen", "EgoFmt_MC_asis.cfg", sd, timeout=1500, env=JENV)
             if rn.violated != "HeaderBraceSound":
                 raise vf.NoVerdict("negative control: the as-found header rule did not violate HeaderBraceSound (%s %s)" % (rn.violated, rn.error))
